@@ -140,6 +140,19 @@ func cmdCheck(args []string) int {
 		bo, boundedInfo = eng.runBounded(modTextHarness, *repo, *verif, *tier, seed)
 		extraObls = append(extraObls, bo...)
 	}
+	if id == "C07" {
+		// one bounded clause next to the no-panic proofs: the location grammar is built from go-pars
+		// combinators, so "no location string makes the parser panic" is decided by the string
+		// enumeration of /verif/bounded/location_bounded_test.go (clause parser-total), labelled bounded
+		bo, info := eng.runBounded(locTextHarness, *repo, *verif, *tier, seed)
+		boundedInfo = info
+		for _, o := range bo {
+			if strings.HasSuffix(o.Name, "/bounded:parser-total") || strings.HasSuffix(o.Name, "/bounded:harness-ran") {
+				o.Props = []string{"C07"}
+				extraObls = append(extraObls, o)
+			}
+		}
+	}
 	if id == "C16" {
 		var bo []*Obligation
 		bo, boundedInfo = eng.runBounded(originHarness, *repo, *verif, *tier, seed)
@@ -440,6 +453,13 @@ func cmdCheck(args []string) int {
 		ev.Coverage["bounded_obligations"] = nb
 		ev.Level = "other"
 		ev.Coverage["explanation"] = "two parts: (1) proof: the library steps the commands are built from (Minimize, Invert*, BySegment, Segment, Delete/Erase/Insert/Embed/Rotate/Slice) are under contract and discharged by SMT for all inputs; (2) BOUNDED, not proved: the per-record loops of the six commands are run through the gts binary built from the current tree on every site configuration within the bound stated in /verif/bounded/cli_bounded_test.go, and the residues written are compared with what the property prescribes; obligations named main.commands/bounded:* are outcomes of that enumeration."
+	}
+	if id == "C07" {
+		for k, v := range boundedInfo {
+			ev.Coverage[k] = v
+		}
+		ev.Coverage["bounded_obligations"] = 2
+		ev.Coverage["explanation"] = "no-panic obligations (index, slice, type assertion, Repeat count, Request size, explicit panic, preconditions of callees) by SMT for the hand-written reader code listed in functions_under_contract; in addition ONE bounded clause, not a proof: the location grammar (go-pars combinators, outside the verified subset) is run on every location string within the bound of /verif/bounded/location_bounded_test.go - coordinates in any order, every leaf spelling, complements, joins and orders - and must not panic (obligation gts.AsLocation/bounded:parser-total)."
 	}
 	if id == "C16" {
 		for k, v := range boundedInfo {
